@@ -13,6 +13,16 @@ CLAIMED = {
              note=S_NOTE + 'liveness is reduced to safety at quiescence + the contract that a queued mio wake-up / listener event is delivered; bounds as in the evidence', ref='§5 C03'),
  'C05': dict(engine='mirsym', tech=S_TECH, text='pause/resume/stop commands, accept errors of every kind and clock advances (virtual time as solver variables) in every order against the real accept loop and real socket.rs (TCP and Unix-domain listeners)',
              note=S_NOTE + 'edge-triggered readiness model; "pause has taken effect" = the loop iteration that processed it has finished; bounds as in the evidence', ref='§5 C05'),
+ 'C01': dict(engine='mirsym', tech=S_TECH, text='accept side: every stream accepted by the real accept loop is enqueued at exactly one worker with its listener\'s token (TCP and Unix-domain listeners, pause/resume/stop, worker faults); worker side: the real ServerWorker::poll calls the k-th queued connection exactly once, in order, on services[token]',
+             note=S_NOTE + 'scripted dyn Service objects stand for the user services; bind/listen, fd conversion (FromStream::from_mio) and the kernel\'s accept are outside; bounds as in the evidence', ref='§5 C01'),
+ 'C04': dict(engine='mirsym', tech=S_TECH, text='(a) Availability::{set_available,get_available,available,offset} with fully symbolic [u128;4], idx, j, b: loop-free, decided for every value (all 512 indices, panic iff idx >= 512); (b) in every explored schedule: dispatch only to workers marked available and below the limit, and any W consecutive dispatches while no worker is saturated or marked unavailable go to W distinct workers',
+             note=S_NOTE + 'the window claim is stated for windows in which every availability bit is set (a worker whose release notification is still in flight is legitimately skipped); bounds as in the evidence', ref='§5 C04'),
+ 'C06': dict(engine='mirsym', tech=S_TECH, text='worker side: Stop handling and the Shutdown arm of the real ServerWorker::poll with symbolic clock and symbolic shutdown_timeout (idle/forced complete at once, graceful completes only when idle or after the timeout, and does complete then; queued connections released); accept side: the real loop returns exactly when Stop is processed; ServerInner::map_signal',
+             note=S_NOTE + 'NOT covered (async fn joining a std::thread::JoinHandle, real signals, the 300 ms System::stop delay): ServerInner::handle_cmd(Stop) as a whole, ServerHandle::stop future resolution; see DESIGN.md §6', ref='§5 C06'),
+ 'C07': dict(engine='mirsym', tech=S_TECH, text='every readiness script (Pending/Ready/Err chosen by the solver at every poll_ready) of 1..3 scripted services against the real ServerWorker::poll, check_readiness, restart_service: calls only right after all services answered ready, failed service alone re-created once, no queued connection lost, order kept',
+             note=S_NOTE + 'bounds: services, connections, polls and Pending/Err budgets as in the evidence', ref='§5 C07'),
+ 'C08': dict(engine='mirsym', tech=S_TECH, text='worker death at any point (receiver dropped; outstanding guards dropped later one by one = late notifications), replacement handle arrival, in every order against the real accept loop: no panic, no spin, one fault report per dead worker, dispatching connection re-routed, replacement rejoins the rotation',
+             note=S_NOTE + 'NOT covered: ServerInner::handle_cmd(WorkerFaulted) (starts threads); how a worker thread dies; bounds as in the evidence', ref='§5 C08'),
  'C16': dict(engine='mirsym', tech=S_TECH, text='every operation sequence on the real local-channel (MIR of mpsc.rs + local-waker) up to the depth bound with symbolic payloads and symbolic acting sender, reference queue model stepped alongside',
              note='trusted: mirsym executor and its callee models of Rc/RefCell/VecDeque/Cell/Waker (validated per run against the native build on random concrete sequences); bounds: sequence length 6 (quick) / 8 (thorough), <=3 senders', ref='§5 C16'),
 }
